@@ -94,7 +94,11 @@ impl ConnBuffer {
         loop {
             let nread = reader.read_line(&mut self.line)?;
             if nread == 0 {
-                todo!()
+                // no header line: empty (or blank-only) matrix definition
+                return self.ctx.err(BuildFailure::SplitFormatError {
+                    original: String::new(),
+                    field: "left_num",
+                });
             }
             self.ctx.add_line(1);
             if !EMPTY_LINE.is_match(&self.line) {
